@@ -203,7 +203,13 @@ class ContractEval:
         if c.assigns is None:
             raise Unsupported("modular call of %s whose contract has no assigns clause" % c.short)
         for a in c.assigns:
-            for lv in self.ev.lvalues(a, env, old):
+            try:
+                lvs = self.ev.lvalues(a, env, old)
+            except SpecError as ex:
+                if "no field" not in str(ex):
+                    raise
+                continue
+            for lv in lvs:
                 self.havoc_loc(eng, st, lv, c.short)
         val = None
         if len(f.results) == 1:
@@ -212,7 +218,11 @@ class ContractEval:
             val = TupleV([self.fresh_result(eng, t, c.short) for t in f.results])
         env2 = self.result_env(env, f, val)
         for en in c.ensures:
-            st.assume(self.holds(en, env2, st, old))
+            try:
+                st.assume(self.holds(en, env2, st, old))
+            except SpecError as ex:
+                if "no field" not in str(ex):
+                    raise   # a clause about state that does not exist gives the caller nothing to assume
         return [(st, val)]
 
     def fresh_result(self, eng, tid, nm):
